@@ -182,24 +182,37 @@ def shrink(spec, case, clause, budget_s=60):
         c["ops"] = ops
         return c
 
+    def ddmin(items, build):
+        n = 2
+        while len(items) >= 1 and time.time() - t0 < budget_s:
+            size = max(1, len(items) // n)
+            reduced = False
+            for i in range(0, len(items), size):
+                cand = items[:i] + items[i + size :]
+                if fails(build(cand)):
+                    items = cand
+                    n = max(n - 1, 2)
+                    reduced = True
+                    break
+                if time.time() - t0 > budget_s:
+                    break
+            if not reduced:
+                if size == 1:
+                    break
+                n = min(len(items), n * 2)
+        return items
+
+    ops = ddmin(list(case["ops"]), with_ops)
+    case = with_ops(ops)
+    for key in ("tasks", "schedule", "pagers", "clears", "multi_restarts", "inline"):
+        if isinstance(case.get(key), list) and case[key]:
+            def build(items, key=key):
+                c = dict(case)
+                c[key] = items
+                return c
+
+            case = build(ddmin(list(case[key]), build))
     ops = list(case["ops"])
-    n = 2
-    while len(ops) >= 2 and time.time() - t0 < budget_s:
-        size = max(1, len(ops) // n)
-        reduced = False
-        for i in range(0, len(ops), size):
-            cand = ops[:i] + ops[i + size :]
-            if cand and fails(with_ops(cand)):
-                ops = cand
-                n = max(n - 1, 2)
-                reduced = True
-                break
-            if time.time() - t0 > budget_s:
-                break
-        if not reduced:
-            if size == 1:
-                break
-            n = min(len(ops), n * 2)
     # per-op simplification: shorten list-valued arguments
     changed = True
     while changed and time.time() - t0 < budget_s:
@@ -378,6 +391,8 @@ def main_check(prop, tier, base_seed, nruns=None, workers=None):
     if viol:
         r = viol[0]
         case = r["case"]
+        if r.get("extra", {}).get("schedule") is not None:
+            case["schedule"] = r["extra"]["schedule"]  # pin the interleaving explicitly
         clause = r["violation"][0]
         small = shrink(spec, case, clause)
         res2 = spec.run(small)
